@@ -177,3 +177,19 @@ def near_miss(rng, t):
     up2[a], lo2[b] = lo[b], up[a]
     objs[n] = (cls, name, tuple(up2), tuple(lo2), bk)
     return (t[0], objs)
+
+
+def target_swap_variant(rng, t, targets):
+    """exchange two target indices of the same space and spin (in general NOT an equivalent term);
+    combined with a random renaming of the summed indices"""
+    classes = {}
+    for nm, sp in targets:
+        base = OCC if nm[0] in OCC else VIRT if nm[0] in VIRT else GEN
+        classes.setdefault((base, sp), []).append((nm, sp))
+    cands = [v for v in classes.values() if len(v) >= 2]
+    if not cands:
+        return None
+    a, b = rng.sample(rng.choice(cands), 2)
+    m = {a: b, b: a}
+    swapped = (t[0], [rename_obj(o, m) for o in t[1]])
+    return alpha_variant(rng, swapped, targets)
